@@ -1,7 +1,10 @@
 #!/bin/bash
 # runs every property's quick check sequentially; logs under /verif/out/quick/
+# (the summary line also counts what a plain exit status no longer shows:
+#  INCONCLUSIVE / VACUOUS / ENCODER-ERROR lines)
 mkdir -p /verif/out/quick
 for id in "$@"; do
-  /verif/bin/vsym check $id --tier quick > /verif/out/quick/$id.log 2>&1
-  echo "$id exit=$? $(tail -1 /verif/out/quick/$id.log)" >> /verif/out/quick/SUMMARY.txt
+  /verif/bin/vsym check $id --tier ${TIER:-quick} > /verif/out/quick/$id.log 2>&1
+  rc=$?
+  echo "$id exit=$rc incomplete=$(grep -c '^INCONCLUSIVE\|^VACUOUS\|^ENCODER-ERROR' /verif/out/quick/$id.log) $(tail -1 /verif/out/quick/$id.log)" >> /verif/out/quick/SUMMARY.txt
 done
